@@ -104,8 +104,10 @@ let () =
         (* cancelAt: "-" | "<n>" (RetentionSleep 100 ms: the ctx case is the only ready one at the callback end)
            | "<n>z" / "<n>n" (RetentionSleep 0 / 1 ns: the expired timer races with ctx.Done, see sc_step) *)
         let racy = cancel_at <> "-" && (let c = cancel_at.[String.length cancel_at - 1] in c = 'z' || c = 'n') in
+        (* "<n>r<m>": the cancellation comes inside the n-th callback (at the m-th removal): the callback is finished, then the scan stops *)
+        let cancel_cb = (match sp 'r' cancel_at with [n; _] -> n | _ -> cancel_at) in
         let cancel = if cancel_at = "-" then 0
-          else int_of_string (if racy then String.sub cancel_at 0 (String.length cancel_at - 1) else cancel_at) in
+          else int_of_string (if racy then String.sub cancel_at 0 (String.length cancel_at - 1) else cancel_cb) in
         (match outs with
          | [order; res; callbacks; eff; d; r] ->
              let ord = if order = "none" then [] else List.map (fun m -> if m = "-" then [] else str_of_field m) (sp ',' order) in
@@ -129,6 +131,7 @@ let () =
                  | _ -> false) effops in
              let verdict =
                if List.mem "STUCK" (sp ',' eff) then "fail:delivery-stuck"
+               else if res = "ok-SLOW" && cancel > 0 then "fail:cancel-not-prompt"
                else if res <> "ok" then "fail:scan-" ^ String.lowercase_ascii res
                else begin
                  let bad = ref "" in
